@@ -131,7 +131,7 @@ def gen_late_browser_family(rng):
     m = rng.choice([1, 5, 10, 30, 37, 38, 40, 45, 50, 56, 57, 60, 65, 70, 74, 75, 76, 80]) * minute + rng.choice([0, 1, rng.randint(0, minute)])
     if rng.random() < 0.25:
         # around the 75 % point of the default TTL (announcements at ~0.35-0.8 s + 3375 s): the browser starts after it, or so
-        # shortly before it that the 75 % point falls into its start-up phase (K3b's start-up branch: the boundary is 24.12 s)
+        # shortly before it that the 75 % point falls into its start-up phase (K3b's start-up branch: the boundary is 25.119 s)
         m = 3375000 + rng.choice([-40000, -30000, -26000, -25000, -24200, -24000, -23000, -15000, -5000, -1000, 0, 500, 1000, 5000]) \
             + rng.choice([0, 350, 800, rng.randint(0, 1000)])
     ops.append([m, "browse", 1, 0])
@@ -1320,9 +1320,11 @@ def monitors(tr, endT, cfg=CFG):
                     # of the new 75 % point — on either side; 30 s late: kept schedule + two passes each at most 10 s late);
                     # it started later, or so shortly before that the 75 % point falls into its start-up phase (no refresh pass
                     # runs then): its 3rd / 4th start-up question (the record is stale by then and is not listed)
-                    if tb + cfg["qHi"] + cfg["qOff"][3] + cfg["refreshEarly"] <= x[0] + cfg["refresh1"] * e_s:
+                    if tb + cfg["qHi"] + cfg["qOff"][3] + cfg["refreshEarly"] + cfg["dupQ"] <= x[0] + cfg["refresh1"] * e_s:
                         due = x[0] + (cfg["refresh2"] if second else cfg["refresh1"]) * e_s
-                        a, hi = due - cfg["refreshEarly"] - cfg["dupQ"], due + cfg["refreshWin"]
+                        # (2 * dupQ: a heard question suppresses, and the cached record may be up to 999 ms older than this
+                        # delivery - the listener does not parse a datagram byte-identical to the one parsed < 1 s ago)
+                        a, hi = due - cfg["refreshEarly"] - 2 * cfg["dupQ"], due + cfg["refreshWin"]
                     else:
                         off = cfg["qOff"][3 if second else 2]
                         a, hi = tb + cfg["qLo"] + off - cfg["dupQ"], tb + cfg["qHi"] + off
